@@ -85,7 +85,7 @@ def kind_assignments(n, mode):
         yield base
         for i in range(n):
             for alt in ('x%d/' % i, '.c%d' % i, 'x%d$' % i, "x%d{it's}" % i, '.c%d{t "}' % i, '#i%d[a=b]{t}' % i,
-                        'x%d{a${1}b}' % i, '.c%d{${0} q}' % i):
+                        'x%d{a${1}b}' % i, '.c%d{${0} q}' % i, '[a=b%d]' % i, 'ns:x%d-y_z' % i, 'X%d' % i):
                 l = list(base)
                 l[i] = alt
                 yield l
@@ -175,13 +175,14 @@ def run_shard(shard, ctx, tier):
 def implicit_parent_sites(seq, n):
     "for each mask of implicit elements: the written elements that are parents of an implicit element"
     for mask in range(1, 1 << n):
-        labels = [('.c%d' % i) if mask >> i & 1 else ('x%d' % i) for i in range(n)]
+        # an implicit element is written as a class, an id or a bare attribute set, in turn
+        labels = [(('.c%d', '#i%d', '[a=b%d]')[i % 3] % i) if mask >> i & 1 else ('x%d' % i) for i in range(n)]
         tree = M.unroll(M.denote(seq, labels))
         parents = set()
 
         def walk(nodes, parent):
             for label, ch, index in nodes:
-                if label.startswith('.') and parent is not None and not (mask >> parent & 1):
+                if label[0] in '.#[' and parent is not None and not (mask >> parent & 1):
                     parents.add(parent)
                 walk(ch, index)
         walk(tree, None)
